@@ -85,9 +85,12 @@ def run(ctx):
                 traces.append(_observe(idx, n, k))
     # the DBAL call site: which (index, triple) pairs one scoring call uses
     for n in range(3, 10 if ctx.quick else 14):
-        for budget in sorted({1, comb(n, 3) - 1, comb(n, 3), comb(n, 3) + 5, 5000}):
+        for budget in sorted({1, comb(n, 3) // 4, comb(n, 3) // 3, comb(n, 3) - 1, comb(n, 3), comb(n, 3) + 5, 5000}):
             if budget >= 1:
                 traces.append(_observe_dbal(n, budget, rnd.randrange(1 << 30)))
+    # the production regime of the call site: C(n,3) far above the budget (sub-sampled triples must still be distinct)
+    for n, budget in [(45, 5000), (60, 5000), (30, 800)] + ([] if ctx.quick else [(80, 5000), (120, 3000), (200, 5000)]):
+        traces.append(_observe_dbal(n, budget, rnd.randrange(1 << 30)))
     _validate(ctx, tlc, traces)
     ctx.assumptions += ["TLC integers are 32 bit: the register machine is explored for k=3 up to n=1500, rank/successor "
                         "relations up to n=2343 (C(n,3) < 2^31); larger n is not covered"]
